@@ -31,6 +31,7 @@ Vote contents are drawn from a case-local seed and never sent to the model (the 
 every `rounds` case is run twice with different vote contents and must give identical results.
 """
 import itertools, random
+from fractions import Fraction
 from ..core import impl_call, err_kind, fr
 
 NAME = "sampling"
@@ -64,26 +65,37 @@ def _K(n):
     return 4 * (n + 1) ** 2
 
 
-def _num(k, D=None):
-    """the sample number handed to the code for the case's integer k: k itself, or (case field `num_scale` = D, a power
-    of two, every k < 2^40) the float k/D -- "sample_num: float" in the CVR signature; sample numbers are only ever
-    compared, so the model keeps working with the integers k (k -> k/D is exact and strictly increasing)"""
-    return int(k) if not D else int(k) / D
+# `num_scale` = [D, kind] of the current case: the sample numbers handed to the code are k/D (D a power of two, k < 2**50:
+# exact) as floats or Fractions -- `sample_num` and `sample_threshold` are documented as floats (SHA256.random() gives
+# values in [0,1)) and are only ever compared; the model and the oracles work with the integers k
+_SCALE = [1, "int"]
 
 
-def _mk_cvrs(cards, vseed, D=None):
+def _num(k):
+    D, kind = _SCALE
+    if D == 1 or not isinstance(k, int) or isinstance(k, bool):
+        return k
+    return Fraction(k, D) if kind == "fraction" else k / D
+
+
+def _unnum(t):
+    return int(Fraction(t) * _SCALE[0])
+
+
+def _mk_cvrs(cards, vseed):
     from shangrla.core.Audit import CVR
     rng = random.Random(vseed)
-    return [CVR(id=f"c{i}", votes=_votes(rng, cd["styles"]), phantom=bool(cd["phantom"]), sample_num=_num(cd["num"], D))
+    return [CVR(id=f"c{i}", votes=_votes(rng, cd["styles"]), phantom=bool(cd["phantom"]), sample_num=_num(int(cd["num"])))
             for i, cd in enumerate(cards)]
 
 
-def _mk_contests(contests, use_style=True, audit_type=None, D=None):
+def _mk_contests(contests, use_style=True, audit_type=None):
     from shangrla.core.Audit import Contest, Audit
     d = {}
     for con in contests:
         d[con["id"]] = {"id": con["id"], "sample_size": con.get("size", 0),
-                        "sample_threshold": (None if con.get("thr") is None else _num(con["thr"], D)),
+                        "sample_threshold": (None if con.get("thr") is None else
+                                             (_num(con["thr"]) if isinstance(con["thr"], int) else con["thr"])),
                         "use_style": use_style, "risk_limit": 0.05,
                         "audit_type": audit_type or Audit.AUDIT_TYPE.CARD_COMPARISON}
     return Contest.from_dict_of_dicts(d)
@@ -167,14 +179,9 @@ def _mk_mvrs(n, cids, vseed, cards=None):
     return mv
 
 
-def _thr(con, D=None):
+def _thr(con):
     t = con.sample_threshold
-    if t is None:
-        return None
-    if D:
-        k = t * D
-        return str(int(k)) if float(k) == int(k) else f"non-integer:{t!r}*{D}"
-    return str(int(t))
+    return None if t is None else str(_unnum(t))
 
 
 def _run_history(case, vseed):
@@ -182,10 +189,9 @@ def _run_history(case, vseed):
     cards, n = case["cards"], len(case["cards"])
     cids = [c["id"] for c in case["contests"]]
     K = _K(n)
-    D = case.get("num_scale")
-    cvrs = _mk_cvrs(cards, vseed, D)
+    cvrs = _mk_cvrs(cards, vseed)
     mvrs = _mk_mvrs(n, cids, vseed, cards)
-    contests = _mk_contests(case["contests"], use_style=case["use_style"], D=D)
+    contests = _mk_contests(case["contests"], use_style=case["use_style"])
     asns = {c: _mk_assertion(con, K, n) for c, con in contests.items()}
     rng = random.Random(vseed + 13)
     prev, out = None, []
@@ -199,10 +205,10 @@ def _run_history(case, vseed):
                                         use_style=case["use_style"])
             for c in cids:
                 alt_contests[c].sample_threshold = contests[c].sample_threshold
-            alt_cvrs = _mk_cvrs(cards, vseed + 1, D)
+            alt_cvrs = _mk_cvrs(cards, vseed + 1)
             try:
                 a_sel = CVR.consistent_sampling(alt_cvrs, alt_contests, None if r["cont"] else list(prev))
-                alt = {"sel": [int(i) for i in a_sel], "thr": [_thr(alt_contests[c], D) for c in cids]}
+                alt = {"sel": [int(i) for i in a_sel], "thr": [_thr(alt_contests[c]) for c in cids]}
             except Exception as e:  # noqa
                 alt = {"err": err_kind(e)}
         try:
@@ -219,7 +225,7 @@ def _run_history(case, vseed):
             break
         prev = sel
         sel_l = [int(i) for i in sel]
-        rec = {"st": "ok", "sel": sel_l, "thr": [_thr(contests[c], D) for c in cids],
+        rec = {"st": "ok", "sel": sel_l, "thr": [_thr(contests[c]) for c in cids],
                "flags": [bool(c.sampled) for c in cvrs], "alt": alt}
         # retrieve the cards in some other order, let prep_comparison_sample restore the selection order
         cs = [cvrs[i] for i in sel_l]; ms = [mvrs[i] for i in sel_l]
@@ -243,6 +249,14 @@ def _run_history(case, vseed):
 # impl per kind
 
 def impl(case):
+    _SCALE[:] = case.get("num_scale") or [1, "int"]
+    try:
+        return _impl(case)
+    finally:
+        _SCALE[:] = [1, "int"]
+
+
+def _impl(case):
     k = case["kind"]
     if k == "rounds":
         a = _run_history(case, case["vseed"])
@@ -250,16 +264,15 @@ def impl(case):
         return {"st": "ok", "rounds": a, "meta_same": a == b}
     if k == "cs":
         from shangrla.core.Audit import CVR
-        D = case.get("num_scale")
-        cvrs = _mk_cvrs(case["cards"], case["vseed"], D)
-        contests = _mk_contests(case["contests"], D=D)
+        cvrs = _mk_cvrs(case["cards"], case["vseed"])
+        contests = _mk_contests(case["contests"])
         prev = None if case["prev"] is None else list(case["prev"])
         if case.get("call") == "kw":          # the documented keywords; `sampled_cvr_indices` left out when there is none
             kw = {} if prev is None else {"sampled_cvr_indices": prev}
             sel = CVR.consistent_sampling(contests=contests, cvr_list=cvrs, **kw)
         else:
             sel = CVR.consistent_sampling(cvrs, contests, prev)
-        return {"st": "ok", "sel": [int(i) for i in sel], "thr": [_thr(contests[c["id"]], D) for c in case["contests"]],
+        return {"st": "ok", "sel": [int(i) for i in sel], "thr": [_thr(contests[c["id"]]) for c in case["contests"]],
                 "flags": [bool(c.sampled) for c in cvrs], "same_object": (prev is None) or (sel is prev)}
     if k == "assign":
         from shangrla.core.Audit import CVR
@@ -623,9 +636,17 @@ def gen_rounds(rng, n=None, ncon=None, nr=None, malformed=None):
         rounds[r]["sizes"] = [rng.randint(0, max(0, s)) for s in rounds[r - 1]["sizes"]]
     if rng.chance(0.4):
         _vary_mvrs(rng, cards, cids)
-    return {"kind": "rounds", "use_style": (malformed != "nostyle"), "cards": cards,
+    case = {"kind": "rounds", "use_style": (malformed != "nostyle"), "cards": cards,
             "contests": [{"id": c, "size": 0, "thr": None} for c in cids], "rounds": rounds,
             "vseed": rng.randint(0, 10 ** 6)}
+    return _with_scale(rng, case)
+
+
+def _with_scale(rng, case):
+    """fractional sample numbers k/D (floats or Fractions) in 1 case in 5 whose numbers are small"""
+    if all(isinstance(cd["num"], int) and 0 <= cd["num"] < 2 ** 50 for cd in case["cards"]) and rng.chance(0.2):
+        case["num_scale"] = [rng.choice([2, 4, 64, 1024, 2 ** 20]), rng.choice(["float", "float", "fraction"])]
+    return case
 
 
 def _vary_mvrs(rng, cards, cids):
@@ -694,7 +715,7 @@ def gen_cs(rng):
             prev.append(rng.choice(prev))
         if mode == "range":
             prev.append(n + rng.randint(0, 2))
-    return {"kind": "cs", "cards": cards, "contests": cons, "prev": prev, "vseed": rng.randint(0, 10 ** 6)}
+    return _with_scale(rng, {"kind": "cs", "cards": cards, "contests": cons, "prev": prev, "vseed": rng.randint(0, 10 ** 6)})
 
 
 def gen_assign(rng):
@@ -828,7 +849,8 @@ def gen_options(rng):
     """call forms and value types the other streams never use (OPTIONS_AUDIT.md):
       * prep_polling_sample (ballot-polling audits: the manual records alone are put back into selection order);
       * consistent_sampling called with its documented keywords, `sampled_cvr_indices` left out when there is none;
-      * sample numbers that are floats with a fractional part (`sample_num: float`): k / 2^j, down to all in [0, 1)"""
+      * (`num_scale`, as in the main stream since round 7, here mostly with a scale that brings EVERY number into [0, 1))
+        sample numbers that are floats / Fractions with a fractional part"""
     u = rng.random()
     if u < 0.35:
         c = gen_prep(rng)
@@ -844,11 +866,11 @@ def gen_options(rng):
         c["call"] = rng.choice(["kw", "kw", "pos"])
         if rng.chance(0.6) and all(0 <= int(cd["num"]) < 2 ** 40 for cd in c["cards"]) and \
                 all(k.get("thr") is None or 0 <= int(k["thr"]) < 2 ** 40 for k in c["contests"]):
-            c["num_scale"] = _scale_for(rng, c["cards"])
+            c["num_scale"] = [_scale_for(rng, c["cards"]), rng.choice(["float", "float", "fraction"])]
         return c
     c = gen_rounds(rng, n=rng.choice([2, 3, 4, 6, 8, 12, 20]))
     if all(0 <= int(cd["num"]) < 2 ** 40 for cd in c["cards"]):
-        c["num_scale"] = _scale_for(rng, c["cards"])
+        c["num_scale"] = [_scale_for(rng, c["cards"]), rng.choice(["float", "float", "fraction"])]
     return c
 
 
